@@ -59,6 +59,7 @@ type world struct {
 	creds        []cred
 	fwds         []fwd
 	calls        *httplib.Calls
+	gone         *goneTracker // completion barrier for API requests of clients that have gone
 	recDir       string
 	srvs         []*srv
 	closers      []func()
@@ -83,6 +84,7 @@ type kase struct {
 	in       *inst
 	c        *cred
 	f        *fwd
+	beh      int // client behaviour: behWait | behHalfClose | behClose | behReset
 	admitted bool
 }
 
@@ -141,6 +143,7 @@ func routesOf(kind, action, base string, ri gin.RoutesInfo) *srv {
 // startWorld starts the four servers of a world.
 func startWorld(w *world, tmp string, authYAML string) {
 	w.calls = &httplib.Calls{}
+	w.gone = &goneTracker{}
 	w.recDir = filepath.Join(tmp, w.name)
 	must(os.MkdirAll(w.recDir, 0o755))
 	recPath := filepath.Join(w.recDir, "%path/%Y-%m-%d_%H-%M-%S-%f")
@@ -168,7 +171,7 @@ func startWorld(w *world, tmp string, authYAML string) {
 	}
 
 	mgr := managerFromConf(cnf)
-	parent := &httplib.Parent{Conf: cnf, Calls: w.calls}
+	parent := &apiParent{Parent: &httplib.Parent{Conf: cnf, Calls: w.calls}, gone: w.gone}
 	pm := &httplib.PathManager{N: nItems, Calls: w.calls}
 	hls := &httplib.HLS{N: nItems, Calls: w.calls}
 	rtsp := &httplib.RTSP{Kind: "rtsp", N: nItems, Calls: w.calls}
@@ -473,6 +476,28 @@ func main() {
 							k.admitted = false // no valid requested path: nobody is admitted "on the requested path"
 						}
 						cases = append(cases, k)
+
+						// clients that go away while the request is pending: every registered route, direct address
+						// (thorough: every address variant on the state-changing routes)
+						if !in.registered || in.preflight {
+							continue
+						}
+						sc := stateChanging(in)
+						if fi != 0 && !(thorough && sc) {
+							continue
+						}
+						for _, beh := range []int{behHalfClose, behClose, behReset} {
+							if !sc {
+								// no state to change: only the client that still reads the answer has an oracle;
+								// quick tier: core credentials
+								if beh != behHalfClose || (!thorough && !coreCred(c)) {
+									continue
+								}
+							}
+							kg := k
+							kg.beh = beh
+							cases = append(cases, kg)
+						}
 					}
 				}
 			}
@@ -482,7 +507,10 @@ func main() {
 	r.Rule = "all (auth world: named users / default anonymous users / JWT with and without query tokens, x trusted proxy on|off) x server " +
 		"x registered route (from the gin router) and unregistered/slash-twin paths x 8 method variants x credential placement x user or token " +
 		"permission set x client address header; quick tier: the full credential x address product only on the registered method of each route, " +
-		"a 6-credential core from the direct address on the other methods; in the named-user worlds the forwarded-address variants only with the core and the IP-restricted users and the 'Bearer user:pass' placement only for 6 of the 11 users; distinct = (server, route, method variant, admitted?, status)"
+		"a 6-credential core from the direct address on the other methods; in the named-user worlds the forwarded-address variants only with the core and the IP-restricted users and the 'Bearer user:pass' placement only for 6 of the 11 users; " +
+		"x client behaviour: waits for the answer | half-close (FIN after the request, still reads) | close (FIN, reads nothing) | reset (RST): the three clients that go away on every state-changing " +
+		"Control API route x every credential (direct address; thorough: every address variant), the half-closing client also on every other registered route of the four servers " +
+		"(quick: core credentials); distinct = (server, route, method variant, client behaviour, admitted?, status)"
 
 	client := httplib.NewClient(workers)
 	defer client.Close()
@@ -491,6 +519,7 @@ func main() {
 	var mu sync.Mutex
 	served := map[servedKey]int{}
 	harnessErrs := 0
+	servedGone := 0 // admitted half-closing clients that were served (non-vacuity of that client)
 	lat := map[string]time.Duration{}
 	latN := map[string]int{}
 	var firstErr string
@@ -506,12 +535,21 @@ func main() {
 			id := idx[int((int64(j)*int64(stride))%int64(n))]
 			k := cases[id]
 			t0 := time.Now()
-			resp := client.Do(buildReq(k, id))
+			var resp httplib.Resp
+			if k.beh == behWait {
+				resp = client.Do(buildReq(k, id))
+			} else {
+				var g *goneTracker
+				if k.in.srv.kind == "api" {
+					g = k.w.gone
+				}
+				resp = doGone(buildReq(k, id), k.beh, g)
+			}
 			if os.Getenv("C04_TIMING") != "" {
 				d := time.Since(t0)
 				mu.Lock()
-				lat[fmt.Sprintf("%s %s adm=%v st=%d", k.in.srv.kind, k.in.tmpl, k.admitted, resp.Status)] += d
-				latN[fmt.Sprintf("%s %s adm=%v st=%d", k.in.srv.kind, k.in.tmpl, k.admitted, resp.Status)]++
+				lat[fmt.Sprintf("%s %s adm=%v st=%d client=%s", k.in.srv.kind, k.in.tmpl, k.admitted, resp.Status, behNames[k.beh])] += d
+				latN[fmt.Sprintf("%s %s adm=%v st=%d client=%s", k.in.srv.kind, k.in.tmpl, k.admitted, resp.Status, behNames[k.beh])]++
 				mu.Unlock()
 			}
 			r.Eval(1)
@@ -528,18 +566,41 @@ func main() {
 			if k.admitted && !k.in.preflight && k.in.registered && resp.Status == 200 &&
 				(hasMarker(resp.Body) || bytes.Contains(resp.Body, []byte(`"status":"ok"`)) || k.in.srv.kind == "pprof") {
 				mu.Lock()
-				served[servedKey{k.in.srv.kind, k.in.tmpl, k.in.method}]++
+				if k.beh == behWait {
+					served[servedKey{k.in.srv.kind, k.in.tmpl, k.in.method}]++
+				} else {
+					servedGone++
+				}
 				mu.Unlock()
 			}
 		})
 	}
 
-	var phase1, phase2 []int
+	// phase 1/2: patient clients; phase 1g/2g: clients that go away (run apart from the keep-alive client so that
+	// every API request in flight is registered with the completion barrier)
+	var phase1, phase2, phase1g, phase2g []int
 	for i, k := range cases {
-		if k.admitted && !k.in.preflight {
+		switch {
+		case k.admitted && !k.in.preflight && k.beh == behWait:
 			phase2 = append(phase2, i)
-		} else {
+		case k.admitted && !k.in.preflight:
+			phase2g = append(phase2g, i)
+		case k.beh == behWait:
 			phase1 = append(phase1, i)
+		default:
+			phase1g = append(phase1g, i)
+		}
+	}
+	goneBarrier := func() {
+		for _, w := range worlds {
+			if n := w.gone.pending(); n != 0 {
+				mu.Lock()
+				harnessErrs++
+				if firstErr == "" {
+					firstErr = fmt.Sprintf("world %s: %d API requests of clients that have gone were not finished", w.name, n)
+				}
+				mu.Unlock()
+			}
 		}
 	}
 
@@ -548,14 +609,23 @@ func main() {
 	run(phase1)
 	fmt.Fprintf(os.Stderr, "[c04] phase 1: %d cases in %.1fs\n", len(phase1), time.Since(tp).Seconds())
 	tp = time.Now()
+	run(phase1g)
+	goneBarrier()
+	fmt.Fprintf(os.Stderr, "[c04] phase 1g (clients that go away): %d cases in %.1fs\n", len(phase1g), time.Since(tp).Seconds())
+	tp = time.Now()
 	for _, w := range worlds {
 		for _, c := range w.calls.Snapshot() {
 			what := fmt.Sprintf("world %s: state-changing call %s(%s) reached the back end although no admitted request was sent", w.name, c.Op, httplib_short(c.Arg))
 			rep := map[string]any{"world": w.name, "op": c.Op, "arg": c.Arg}
+			key := "state-change|" + c.Op
 			if id, ok := tagOf(c.Arg); ok && id < len(cases) {
 				rep["case"] = describe(cases[id], id)
+				if b := cases[id].beh; b != behWait {
+					key += "|client-" + behNames[b]
+					what += " (request of a client that went away: " + behNames[b] + ")"
+				}
 			}
-			r.Violation("state-change|"+c.Op, what, rep)
+			r.Violation(key, what, rep)
 		}
 		for i := 0; i < nItems; i++ {
 			p := filepath.Join(w.recDir, fmt.Sprintf("MRKp%d", i), httplib.SegmentName)
@@ -565,7 +635,7 @@ func main() {
 			}
 		}
 	}
-	nUnadmitted := len(phase1)
+	nUnadmitted := len(phase1) + len(phase1g)
 
 	// route-level pagination (C44 at the HTTP layer), with an admitted credential, on the still pristine state
 	nPag := paginationChecks(r, worlds[0], client)
@@ -573,6 +643,19 @@ func main() {
 	// phase 2: admitted requests (non-vacuity: every registered route must actually serve data / change state)
 	run(phase2)
 	fmt.Fprintf(os.Stderr, "[c04] phase 2: %d cases in %.1fs\n", len(phase2), time.Since(tp).Seconds())
+	tp = time.Now()
+	run(phase2g)
+	goneBarrier()
+	fmt.Fprintf(os.Stderr, "[c04] phase 2g (clients that go away): %d cases in %.1fs\n", len(phase2g), time.Since(tp).Seconds())
+	// non-vacuity of the clients that go away: their requests do reach the handlers (state changes of admitted ones)
+	goneCalls := map[int]int{}
+	for _, w := range worlds {
+		for _, c := range w.calls.Snapshot() {
+			if id, ok := tagOf(c.Arg); ok && id < len(cases) && cases[id].admitted {
+				goneCalls[cases[id].beh]++
+			}
+		}
+	}
 
 	if os.Getenv("C04_TIMING") != "" {
 		type kv struct {
@@ -614,12 +697,21 @@ func main() {
 	r.Set("registered_routes", nRoutes)
 	r.Set("request_shapes", nInst)
 	r.Set("cases_not_admitted_or_preflight", nUnadmitted)
-	r.Set("cases_admitted", len(phase2))
+	r.Set("cases_admitted", len(phase2)+len(phase2g))
+	r.Set("cases_client_goes_away_not_admitted", len(phase1g))
+	r.Set("cases_client_goes_away_admitted", len(phase2g))
+	r.Set("state_changing_calls_by_admitted_clients_that_went_away", map[string]int{
+		behNames[behHalfClose]: goneCalls[behHalfClose], behNames[behClose]: goneCalls[behClose], behNames[behReset]: goneCalls[behReset]})
+	r.Set("admitted_half_closing_clients_served", servedGone)
 	r.Set("routes_never_served_when_admitted", neverServed)
 	r.Set("state_changing_calls_by_admitted_requests", stateCalls)
 	r.Set("pagination_requests", nPag)
 	if len(neverServed) > 0 {
 		r.Note("registered routes that never answered 200 with data to an admitted client (URL table of the harness needs an entry): %v", neverServed)
+	}
+	if len(phase1g) == 0 || goneCalls[behHalfClose] == 0 || goneCalls[behClose] == 0 || goneCalls[behReset] == 0 || servedGone == 0 {
+		cleanup()
+		vcommon.Harness("vacuous run: clients that go away: not-admitted cases=%d, state changes by admitted ones=%v, served=%d", len(phase1g), goneCalls, servedGone)
 	}
 	if len(phase2) == 0 || stateCalls == 0 || len(neverServed) > nRoutes/4 {
 		cleanup()
@@ -632,6 +724,7 @@ func main() {
 		"\"no data\" = empty body or a single {status,error} JSON envelope without any stub marker; 3xx trailing-slash redirects of gin (no body data) and, on the playback server, 400 for an invalid/missing path name and 404/405 for unregistered method/route (all without marker data) are accepted for not-admitted clients because there is no valid requested path / route",
 		"the statement is one-directional: an admitted request that is refused is not a violation; it is measured instead (routes_never_served_when_admitted must be empty for the run to count)",
 		"HTTP/1.1 over loopback TCP, no TLS; client address variation through X-Forwarded-For / X-Real-IP with the peer in or out of trustedProxies",
+		"clients that go away do so right after the request has been written (the server sees the end of the connection as soon as it has read the request, i.e. before or during the 0-4 s pause of a rejection; the instant within the pause is not a dimension); to such a client that is not admitted nothing or a 401 without data may be answered; the end of the server-side processing of their Control API requests is taken from the API's '[s->c]' log line (barrier, not oracle)",
 	}
 	cleanup()
 	r.Finish()
@@ -694,8 +787,14 @@ func describe(k kase, id int) map[string]any {
 	return map[string]any{
 		"world": k.w.name, "server": k.in.srv.kind, "route": k.in.tmpl, "method": k.in.mv,
 		"url": strings.TrimPrefix(rq.URL, k.in.srv.base), "headers": rq.Header, "body": rq.Body,
-		"credential": k.c.name, "address": k.f.name, "admitted_by_model": k.admitted,
+		"credential": k.c.name, "address": k.f.name, "client": behNames[k.beh], "admitted_by_model": k.admitted,
 	}
+}
+
+// stateChanging: a registered Control API route that is not a read.
+func stateChanging(in *inst) bool {
+	return in.srv.kind == "api" && in.registered && !in.preflight &&
+		in.method != "GET" && in.method != "HEAD" && in.method != "OPTIONS"
 }
 
 func judge(r *vcommon.Run, k kase, id int, resp httplib.Resp) {
@@ -707,16 +806,26 @@ func judge(r *vcommon.Run, k kase, id int, resp httplib.Resp) {
 	if k.admitted && !in.preflight {
 		cst = 0
 	}
-	r.Distinct(fmt.Sprintf("%s|%s|%s|adm=%v|%d", in.srv.kind, in.tmpl, in.mv, k.admitted, cst))
-	r.Distinct(fmt.Sprintf("cred|%s|%s|%s|%s|trusted=%v|adm=%v|%d", k.w.mode, in.srv.kind, k.c.kind, k.f.name, k.w.trusted, k.admitted, cst))
+	if k.beh == behWait {
+		r.Distinct(fmt.Sprintf("%s|%s|%s|adm=%v|%d", in.srv.kind, in.tmpl, in.mv, k.admitted, cst))
+		r.Distinct(fmt.Sprintf("cred|%s|%s|%s|%s|trusted=%v|adm=%v|%d", k.w.mode, in.srv.kind, k.c.kind, k.f.name, k.w.trusted, k.admitted, cst))
+	} else {
+		r.Distinct(fmt.Sprintf("%s|%s|%s|client=%s|adm=%v|%d", in.srv.kind, in.tmpl, in.mv, behNames[k.beh], k.admitted, cst))
+		r.Distinct(fmt.Sprintf("cred|%s|%s|%s|client=%s|adm=%v|%d", k.w.mode, in.srv.kind, k.c.kind, behNames[k.beh], k.admitted, cst))
+	}
 
 	viol := func(kind, what string) {
 		rep := describe(k, id)
 		rep["status"] = st
 		rep["response_body"] = printable(resp.Body, 300)
 		key := fmt.Sprintf("%s|%s %s|%s", in.srv.kind, in.mv, in.tmpl, kind)
-		bufViolation(key, id, fmt.Sprintf("%s: %s %s [cred %s, addr %s, world %s] -> %d %s", what, in.method, vcommon.Short(fmt.Sprint(rep["url"]), 100),
-			k.c.name, k.f.name, k.w.name, st, printable(resp.Body, 120)), rep)
+		client := ""
+		if k.beh != behWait {
+			key += "|client-" + behNames[k.beh]
+			client = ", client " + behNames[k.beh]
+		}
+		bufViolation(key, id, fmt.Sprintf("%s: %s %s [cred %s, addr %s, world %s%s] -> %d %s", what, in.method, vcommon.Short(fmt.Sprint(rep["url"]), 100),
+			k.c.name, k.f.name, k.w.name, client, st, printable(resp.Body, 120)), rep)
 	}
 
 	if in.preflight {
@@ -737,6 +846,14 @@ func judge(r *vcommon.Run, k kase, id int, resp httplib.Resp) {
 	}
 
 	// not admitted
+	if k.beh != behWait && st == 0 {
+		// the client has gone and nothing was answered (close / reset: nothing is read): nothing was returned;
+		// state changes are judged after the phase
+		if len(resp.Body) != 0 {
+			viol("data-without-status", "data sent to a client that is not admitted")
+		}
+		return
+	}
 	if id%97 == 1 {
 		r.Sample(map[string]any{"case": describe(k, id), "status": st, "body": vcommon.Short(string(resp.Body), 80)})
 	}
